@@ -28,7 +28,7 @@ def run(ctx):
     distinct = {json.dumps([t[0]["sit"], sorted((m["f"], m["v"]) for m in t[0]["muts"])]) for t in r.traces if t[0]["muts"]}
     ctx.add("evaluations", int(s.get("cases", 0)))
     ctx.cov["distinct_nontrivial"] = len(distinct)
-    ctx.cov["rule"] = ("a case = (situation in {genesis block with initial height 1 / 5, block 2, block 8 after a validator-set change}, "
+    ctx.cov["rule"] = ("a case = (situation in {genesis block with initial height 1 / 5, block 2, block 8 after a validator-set change, 6 quorum situations with 3-7 previous validators}, "
                        "set of field mutations of the valid block): every single mutation, every pair on two different fields, plus listed "
                        "triples; enumerated by TLC from spec/BlockValidation.tla; distinct = distinct (situation, mutation set), "
                        "non-trivial = at least one mutation; each is built with real signatures and hashes, decoded from its amino "
@@ -40,10 +40,28 @@ def run(ctx):
     ctx.cov["agreeing"] = int(s.get("replays_ok", 0))
     if spec_acc < 2:
         raise vlib.Inconclusive("VACUOUS", "no valid mutant among the cases")
+    # the quorum boundary must be exercised for every residue of the total power mod 3: a LastCommit tallying
+    # exactly floor(2T/3) (rejected for lack of power), floor(2T/3)+1 and T (accepted)
+    seen = set()
+    for t in r.traces:
+        c = t[0]
+        T, tally = c.get("total", 0), c.get("tally", -1)
+        if T <= 0 or tally < 0:
+            continue
+        if tally == (2 * T) // 3 and c["why"] == "commit:power":
+            seen.add((T % 3, "floor"))
+        if tally == (2 * T) // 3 + 1 and c["reply"] == "accept":
+            seen.add((T % 3, "floor+1"))
+        if tally == T and c["reply"] == "accept":
+            seen.add((T % 3, "all"))
+    need = {(m, k) for m in (0, 1, 2) for k in ("floor", "floor+1", "all")}
+    if need - seen:
+        raise vlib.Inconclusive("VACUOUS", "quorum boundary not exercised: missing %s (total mod 3, tally)" % sorted(need - seen))
+    ctx.cov["quorum_boundary_classes"] = len(seen)
     ctx.log("validated %d mutants on the real State.ValidateBlock: %d agree, %d accepted" % (s.get("cases", 0), s.get("replays_ok", 0), s.get("accepts", 0)))
     ctx.cov["exhaustive"] = True
     ctx.assumptions += [
-        "structured mutants only (single fields and pairs of a valid block at 4 chain situations); arbitrary byte strings are not generated",
+        "structured mutants only (single fields and pairs of a valid block at 4 chain situations, every subset of blanked / stray precommits over 6 previous validator sets with total power 0, 1, 2 mod 3); arbitrary byte strings are not generated",
         "the clause 'every applied block passed validation' (consensus / fast-sync call sites) is not covered by this check",
         "a precommit's weight in the median is the power of the validator at its index in the commit (the one whose signature VerifyCommit checked)",
         "ed25519 / merkle / amino primitives trusted",
